@@ -190,7 +190,7 @@ def run_modules(run: Run, modules, n_random):
 def run(run: Run) -> int:
     # (common.check_theorems' own coqchk option compiles the copy under the wrong logical name; coqchk is run below instead)
     run.check_theorems(PROPS, CONE, thorough_coqchk=False)
-    n_random = 1 if run.tier == "quick" else 12
+    n_random = 2 if run.tier == "quick" else 40
     import spox
 
     from harness.common import REPO
